@@ -59,9 +59,11 @@ def rule_a(ctx):
                     ok, detail = False, 'an exception of the frame decoder escapes %s' % f.short
                     continue
                 handled = [e for e in p.events if e.kind == 'except' and e.seq > raised[0].seq]
-                ys = [e for e in p.events if e.kind == 'yield' and handled and e.seq > handled[0].seq]
-                if not ys or not ys[0].data['value'].types or \
-                        next(iter(ys[0].data['value'].types)).name != 'InvalidFrame':
+                ys = [e.data['value'] for e in p.events if e.kind == 'yield' and handled and e.seq > handled[0].seq]
+                # ... or hands it to a queue (a feeder that decodes a message by itself)
+                ys += [e.data['args'][0] for e in p.events if e.kind == 'call' and handled and
+                       e.seq > handled[0].seq and e.data.get('name') in ('put_nowait', 'put') and e.data.get('args')]
+                if not ys or not ys[0].types or next(iter(ys[0].types)).name != 'InvalidFrame':
                     ok, detail = False, 'a decoder exception is swallowed without yielding the invalid-frame marker'
         if seen == 0:
             raise AnalysisError('C12.a: decoder call in %s has no exception edge' % f.short)
@@ -1007,5 +1009,14 @@ def rule_error_codes_are_members(ctx):
 
 
 
+
+def rule_queue_items(ctx):
+    """(C04.m, rules/msgtransports.py)  What a message transport queues for the receive loop comes from the frame
+    parser (or is the end-of-connection marker)."""
+    from .msgtransports import rule_queue_items_come_from_the_parser
+    rule_queue_items_come_from_the_parser(ctx, 'C04.m')
+
+
+
 RULES = [('C12.a', rule_a), ('C12.b', rule_b), ('C12.c', rule_c), ('C12.d', rule_d), ('C12.e', rule_e),
-         ('C12.f', rule_f), ('C14.f', rule_g), ('C12.b', rule_h), ('C13.d', rule_i), ('C12.g', rule_j), ('C12.h', rule_k), ('C12.i', rule_l), ('C12.j', rule_m), ('C12.k', rule_exception_text), ('C12.l', rule_error_conversion), ('C02.h', rule_decoder_entry), ('C12.m', rule_empty_messages), ('C04.j', rule_marker_queues), ('C12.n', rule_future_inspection), ('C04.l', rule_short_fields_fail), ('C12.o', rule_error_codes_are_members)]
+         ('C12.f', rule_f), ('C14.f', rule_g), ('C12.b', rule_h), ('C13.d', rule_i), ('C12.g', rule_j), ('C12.h', rule_k), ('C12.i', rule_l), ('C12.j', rule_m), ('C12.k', rule_exception_text), ('C12.l', rule_error_conversion), ('C02.h', rule_decoder_entry), ('C12.m', rule_empty_messages), ('C04.j', rule_marker_queues), ('C12.n', rule_future_inspection), ('C04.l', rule_short_fields_fail), ('C12.o', rule_error_codes_are_members), ('C04.m', rule_queue_items)]
